@@ -276,6 +276,10 @@ func resShape(m *msggen.Message) string {
 		return "zlib-deflate"
 	case "deflate-zlib-small":
 		return "zlib-deflate-small-window"
+	case "gzip-multi":
+		return "gzip-several-members"
+	case "gzip-bad", "gzip-padded", "gzip-truncated", "deflate-bad":
+		return "content-coding-does-not-decode"
 	}
 	if m.Encoding == "GZIP" {
 		return enc
@@ -871,7 +875,7 @@ func maxBody() int {
 }
 
 func gen(t *rapid.T) Case {
-	o := msggen.Options{MaxBody: maxBody(), Forms: true, BadForms: true, RawQuery: true, Reasons: true, MoreCodings: true}
+	o := msggen.Options{MaxBody: maxBody(), Forms: true, BadForms: true, RawQuery: true, Reasons: true, MoreCodings: true, Corrupt: true}
 	c := Case{Req: msggen.DrawRequest(t, o)}
 	c.Res = msggen.DrawResponse(t, o, c.Req.Method)
 	c.Post, c.Body = msggen.DrawHarOpt(t, "post"), msggen.DrawHarOpt(t, "body")
@@ -918,7 +922,7 @@ func nonUTF8(c Case) bool {
 
 func compressedCoding(e string) bool {
 	switch e {
-	case "gzip", "deflate", "GZIP", "x-gzip", "deflate-zlib", "deflate-zlib-small":
+	case "gzip", "deflate", "GZIP", "x-gzip", "deflate-zlib", "deflate-zlib-small", "gzip-multi":
 		return true
 	}
 	return false
@@ -1214,6 +1218,15 @@ func matrix(yield func(Case) bool) {
 		rq := msggen.Spec{Method: "POST", Host: "example.com", Path: "/up", Framing: "cl", ContentType: "multipart/form-data", Body: msggen.Body{Kind: "multipart", Boundary: "b0undary-0123456789-abcdefghij",
 			Params: []msggen.Param{{Name: "f", Value: msggen.Val{N: 12, Seed: 1}, File: "photos/2020/index.html", CT: "text/html"}, {Name: "g", Value: msggen.Val{N: 12, Seed: 2}, File: "photos/2021/index.html", CT: "text/html"}}}}
 		cs = append(cs, Case{Req: rq, Res: txt})
+		for _, enc := range []string{"gzip-multi", "gzip-bad", "gzip-padded", "gzip-truncated", "deflate-bad"} {
+			for _, framing := range []string{"cl", "chunked", "close"} {
+				for _, size := range []int{50, 51, 4097} {
+					rs := txt
+					rs.Encoding, rs.Framing, rs.Body.Size = enc, framing, size
+					cs = append(cs, Case{Req: jsn, Res: rs})
+				}
+			}
+		}
 		for _, size := range []int{1, 300, 600, 3000, 9000, 20000} {
 			rs := txt
 			rs.Encoding, rs.Body.Size = "deflate-zlib-small", size
